@@ -313,6 +313,23 @@ theorem unblind_correct (e : G2 →ₗ[F] G1 →ₗ[F] T) (g h u : G1) (g2 gen2 
   rw [hE, ← add_smul]
   simp [sub_self, map_neg, map_smul]
 
+/-- **The randomised signature that `PoKofSig` puts into a proof of knowledge satisfies the pairing equation that
+`SigPoK.Verify` checks**, e(kappa, h^eps) * e(g2inv, h'^eps + nu) = 1, for every randomness eps, delta, whenever the combined
+witness is h' = (x + sum ys[i] * m[i]) * h (which `unblind_value` gives for one signer and `aggregate_of_shares` carries to
+a signer set). The Schnorr part of the proof (psi) is not covered. -/
+theorem pok_pairing_holds (e : G2 →ₗ[F] G1 →ₗ[F] T) (g2 gen2 : G2) (h hPrime : G1) (x δ ε : F) (ys ms : ℕ → F) (n : ℕ)
+    (Y : ℕ → G2) (hY : ∀ i, i < n → Y i = ys i • g2)
+    (hh : hPrime = (x + ∑ i ∈ range n, ys i * ms i) • h) :
+    e (sumG Y ms (x • g2) n + δ • g2) (ε • h) + e ((gen2 - gen2) - g2) (ε • hPrime + δ • (ε • h)) = 0 := by
+  rw [sumG_eq_sum]
+  have hE : ∑ j ∈ range n, ms j • Y j = (∑ j ∈ range n, ys j * ms j) • g2 := by
+    rw [Finset.sum_smul]
+    refine Finset.sum_congr rfl (fun j hj => ?_)
+    rw [hY j (Finset.mem_range.mp hj), smul_smul, mul_comm]
+  rw [hE, hh, ← add_smul, ← add_smul]
+  simp only [sub_self, zero_sub, map_neg, map_smul, map_add, LinearMap.neg_apply, LinearMap.smul_apply, smul_smul, LinearMap.add_apply]
+  module
+
 end BlindSigning
 
 end TSS
@@ -324,3 +341,4 @@ end TSS
 #print axioms TSS.threshold_signature_verifies
 #print axioms TSS.aggregate_of_shares
 #print axioms TSS.unblind_correct
+#print axioms TSS.pok_pairing_holds
